@@ -249,3 +249,6 @@ package martian
 //@   ensures[failed-write-closes-the-connection] (wroteErr && !old(wroteErr)) || (brw.Writer.gFailed && !old(brw.Writer.gFailed)) ==> closeable(result)
 //@   ensures[hijacked-connection-is-not-served-again] session.hijacked ==> closeable(result)
 //@   at call 0 of ModifyRequest before assert[no-upstream-contact-before-request-modifier] nUp == old(nUp)
+//@   at call 0 of handle before assert[hijacker-gets-the-decrypted-connection] session.conn == conn && session.brw == brw
+//@   at call 0 of handle before assert[tunnel-shares-the-connect-session] ctx.session == session
+//@   at call 1 of handle before assert[tunnel-shares-the-connect-session] ctx.session == session
